@@ -266,6 +266,14 @@ def io_case(ctx, i, focus):
         ctx.failures.append({"kind": "oracle", "what": "c16: files mode leaves bytes different from what stdin->stdout prints", "cfg": "enc=%s,bom=%s" % (encname, bom_kind), "input_hex": hx(content), "family": focus})
     if mode == "check" and not malformed and (rc == 0) != (content == so_in) and rc_in == 0:
         ctx.failures.append({"kind": "oracle", "what": "c16: check mode exit status does not match 'content equals the result'", "cfg": "enc=%s,bom=%s" % (encname, bom_kind), "input_hex": hx(content), "family": focus})
+    if not malformed and formatted is not None and rc_in == 0:
+        py_codec = {"utf8": "utf-8", "utf16le": "utf-16-le", "utf16be": "utf-16-be"}.get(eff, codec)
+        try:
+            want = bom + formatted.encode(py_codec)
+            if so_in != want and not (encname == "shift_jis" and b"\xfa\x54" in content):
+                ctx.failures.append({"kind": "oracle", "what": "c17: bytes written differ from BOM + encode(format(decode(input)))", "cfg": "enc=%s,bom=%s" % (encname, bom_kind), "input_hex": hx(content), "family": focus})
+        except UnicodeEncodeError:
+            pass
     if not malformed and bom and rc_in == 0 and not so_in.startswith(bom):
         ctx.failures.append({"kind": "oracle", "what": "c17: BOM not preserved", "cfg": "enc=%s,bom=%s" % (encname, bom_kind), "input_hex": hx(content), "family": focus})
 
